@@ -269,6 +269,7 @@ func check(id, tier string) int {
 	var wg sync.WaitGroup
 	infra := make([]string, W)
 	outs := make([]string, W)
+	died := make([]bool, W)
 	for w := 0; w < W; w++ {
 		wg.Add(1)
 		go func(w int) {
@@ -282,9 +283,22 @@ func check(id, tier string) int {
 			outs[w] = out
 			if timedOut {
 				infra[w] = fmt.Sprintf("worker %d exceeded its watchdog", w)
+			} else if err != nil && !strings.Contains(out, "HARNESS-PANIC") && workerDied(out, err) {
+				// the process was killed by the runtime or the kernel while
+				// running the journaled case: attribute it to that case
+				jb, jerr := os.ReadFile(filepath.Join(outDir, fmt.Sprintf("journal-%d.json", w)))
+				var tr trace
+				if jerr != nil || json.Unmarshal(jb, &tr) != nil {
+					infra[w] = fmt.Sprintf("worker %d died without a journal: %v\n%s", w, err, tail(out, 20))
+					return
+				}
+				tr.Violation = &violation{Oracle: id + ".process-died", Message: "the worker process died while running this case: " + deathReason(out, err)}
+				fb, _ := json.MarshalIndent(tr, "", " ")
+				os.WriteFile(filepath.Join(outDir, fmt.Sprintf("fail-%s-%d.json", id, tr.Index)), fb, 0o644)
+				died[w] = true
 			} else if err != nil && !strings.Contains(out, "FAIL prop=") {
 				infra[w] = fmt.Sprintf("worker %d: %v\n%s", w, err, tail(out, 40))
-			} else if _, serr := os.Stat(filepath.Join(outDir, fmt.Sprintf("stats-%d.json", w))); serr != nil {
+			} else if _, serr := os.Stat(filepath.Join(outDir, fmt.Sprintf("stats-%d.json", w))); serr != nil && !died[w] {
 				infra[w] = fmt.Sprintf("worker %d wrote no statistics: %v\n%s", w, err, tail(out, 40))
 			}
 		}(w)
@@ -391,6 +405,28 @@ func check(id, tier string) int {
 			continue
 		}
 		final := f
+		if strings.HasSuffix(tr.Violation.Oracle, ".process-died") {
+			// re-validate in a fresh process: it must die again
+			rout, rerr, _ := runEngine(b.bin, 4*time.Minute, "-wsim.trace", f, "-wsim.sites", filepath.Join(b.dir, "sites.json"))
+			if rerr == nil || !workerDied(rout, rerr) {
+				if strings.Contains(rout, "REPLAY-VIOLATION") {
+					// it fails in an ordinary way when run alone: report that
+				} else {
+					fmt.Fprintf(os.Stderr, "wsimctl: a worker died while running case %d but the case alone neither dies nor fails (exit 2, not a verdict)\n%s\n", tr.Index, tail(rout, 10))
+					return 2
+				}
+			}
+			os.MkdirAll(filepath.Join(verifDir, "replays"), 0o755)
+			dst := filepath.Join(verifDir, "replays", fmt.Sprintf("%s-%d-%d.json", id, seed, tr.Index))
+			fb, _ := os.ReadFile(f)
+			os.WriteFile(dst, fb, 0o644)
+			fmt.Printf("VIOLATION property=%s replay=%s\n", id, dst)
+			fmt.Printf("  oracle=%s: %s\n", tr.Violation.Oracle, tr.Violation.Message)
+			reported[tr.Violation.Oracle] = true
+			nviol++
+			status = 1
+			continue
+		}
 		out, _, _ := runEngine(b.bin, 4*time.Minute, "-wsim.minimise", f, "-wsim.sites", filepath.Join(b.dir, "sites.json"))
 		if strings.Contains(out, "MINIMISED") {
 			final = f + ".min"
@@ -445,6 +481,21 @@ func check(id, tier string) int {
 	writeEvidence(id, tier, seed, cfg, agg, len(states), len(inter), len(nontr), nviol+boolInt(status == 1 && nviol == 0), wall, maxWall, b.sites)
 	fmt.Printf("wsimctl: %s %s: %d runs, %d ops, %d violations, %.1fs\n", id, tier, agg.Runs, agg.Ops, nviol, wall)
 	return status
+}
+
+// workerDied reports whether a worker's exit looks like a death by the
+// runtime or the kernel rather than an ordinary failure.
+func workerDied(out string, err error) bool {
+	return strings.Contains(err.Error(), "signal:") || strings.Contains(out, "fatal error:") || strings.Contains(out, "out of memory") || strings.Contains(out, "goroutine stack exceeds")
+}
+
+func deathReason(out string, err error) string {
+	for _, l := range strings.Split(out, "\n") {
+		if strings.Contains(l, "fatal error:") || strings.Contains(l, "out of memory") || strings.Contains(l, "cannot allocate") {
+			return strings.TrimSpace(l)
+		}
+	}
+	return err.Error()
 }
 
 func boolInt(b bool) int {
@@ -597,8 +648,13 @@ func replay(path string) int {
 	b := prepare(false)
 	defer b.clean()
 	abs, _ := filepath.Abs(path)
-	out, _, _ := runEngine(b.bin, 10*time.Minute, "-wsim.trace", abs, "-wsim.sites", filepath.Join(b.dir, "sites.json"))
-	fmt.Print(out)
+	out, rerr, _ := runEngine(b.bin, 10*time.Minute, "-wsim.trace", abs, "-wsim.sites", filepath.Join(b.dir, "sites.json"))
+	fmt.Print(tail(out, 30), "\n")
+	if rerr != nil && workerDied(out, rerr) && !strings.Contains(out, "REPLAY-") {
+		fmt.Printf("the replay process died: %s\n", deathReason(out, rerr))
+		fmt.Printf("VIOLATION property=%s replay=%s\n", tr.Property, abs)
+		return 1
+	}
 	if strings.Contains(out, "REPLAY-VIOLATION") {
 		fmt.Printf("VIOLATION property=%s replay=%s\n", tr.Property, abs)
 		return 1
